@@ -213,6 +213,36 @@ theorem closed_after_run (services : List Service) (m : List Res) (is more : Lis
   obtain ⟨_, _, _, _, _, _, _, _, hc⟩ := protocol_shape services m is h
   exact runPolls_closed _ hc more
 
+/-! ### The runs exercised by the correspondence are fair runs
+
+The driver computes the model's answer for a payload with the two executable mergers of
+`Model.lean`.  These corollaries show that what the mergers feed to the stream is a `FairRun`,
+i.e. every complete run of the correspondence is an instance of the theorems above. -/
+
+/-- `P` mode: a schedule after which every stream has ended. -/
+theorem sched_fair_run (services : List Service) (hs : services ≠ []) (sched : List (Option Nat))
+    (hne : sched ≠ []) (hgone : allGone (schedFinal services sched) = true) :
+    ∃ m, FairRun services m (schedEvents services sched) := by
+  obtain ⟨m, h1, h2⟩ := sched_feed services sched hne hgone
+  refine ⟨m, ⟨?_, by simpa [hs] using h2⟩⟩
+  cases services with
+  | nil => exact absurd rfl hs
+  | cons s ss => exact h1
+
+/-- `T` mode: services with per-element delays, merged by virtual time. -/
+theorem timed_fair_run (svcs : List (Option (List (Nat × Res)))) (hs : svcs ≠ []) (fuel : Nat)
+    (hfuel : ((svcs.filterMap (Option.map (absTimes 0))).map List.length).sum ≤ fuel) (rest : List Inner) :
+    FairRun (svcs.map (Option.map (List.map Prod.snd)))
+      ((timeMerge fuel (svcs.filterMap (Option.map (absTimes 0)))).map Prod.snd)
+      (((timeMerge fuel (svcs.filterMap (Option.map (absTimes 0)))).map Prod.snd).map Inner.elem ++ .done :: rest) := by
+  have hne : svcs.map (Option.map (List.map Prod.snd)) ≠ [] := by simpa using hs
+  refine ⟨?_, by rw [if_neg hne]; exact feed_elems _ rest⟩
+  have := timeMerge_interleaving fuel _ hfuel
+  rw [untimed_streams] at this
+  cases hsv : svcs.map (Option.map (List.map Prod.snd)) with
+  | nil => exact absurd hsv hne
+  | cons a b => rw [hsv] at this; exact this
+
 /-! ### Non-vacuity: concrete fair runs exist (each hypothesis is satisfiable) -/
 
 /-- Two services, an error then an item interleaved, a `Pending` in between. -/
